@@ -16,6 +16,7 @@ import (
 	"os"
 	"path/filepath"
 	"reflect"
+	"regexp"
 	"sort"
 	"strings"
 	"sync"
@@ -46,6 +47,9 @@ type c14Vec struct {
 	Bind  string   `json:"binding,omitempty"`
 	Sch   string   `json:"scheme,omitempty"`
 	Shape string   `json:"shape,omitempty"` // what follows an http-ish scheme ("plain" or "": an ordinary URL)
+	Ns    string   `json:"ns,omitempty"`    // lexical form of the endpoint element (spec: NsForms; "default" or "": as every base document)
+	Space string   `json:"space,omitempty"` // the namespace the model resolves the element's name to
+	Slice string   `json:"slice,omitempty"` // the endpoint slice the model derives the element is decoded into ("none": no field takes it)
 	Req   string   `json:"required,omitempty"`
 	Class string   `json:"class"`
 	Pred  struct {
@@ -779,10 +783,13 @@ type c14MetaDoc struct {
 	Raw     string `json:"raw"`     // the hostile attribute value after XML decoding
 	Binding string `json:"binding"` // concrete binding
 	IllXML  bool   `json:"ill_xml"` // the value contains a character XML cannot carry: the document is ill-formed
+	// documents of the other lexical forms (vector field ns): how many elements with the local name of the
+	// hostile one were written into the target descriptor (the hostile one included)
+	SameName int `json:"same_name,omitempty"`
 }
 
-func c14BuildMeta(v *c14Vec, rng *rand.Rand, n int64) c14MetaDoc {
-	d := c14MetaDoc{Entity: fmt.Sprintf("https://peer%d.example.com/metadata", n)}
+// c14PickValue draws the attribute value and the binding of a metadata case.
+func c14PickValue(v *c14Vec, rng *rand.Rand, d *c14MetaDoc) {
 	if v.Shape == "" || v.Shape == "plain" {
 		reps := c14SchemeReps[v.Sch]
 		d.Raw = reps[rng.Intn(len(reps))]
@@ -800,6 +807,121 @@ func c14BuildMeta(v *c14Vec, rng *rand.Rand, n int64) c14MetaDoc {
 			d.IllXML = true
 		}
 	}
+}
+
+func c14DefaultNs(v *c14Vec) bool { return v.Ns == "" || v.Ns == "default" }
+
+const c14MdNs = "urn:oasis:names:tc:SAML:2.0:metadata"
+
+// The lexical forms of the endpoint element (spec: FormOf).  frame: "" = the root declares xmlns=MdNs and the
+// frame's elements carry no prefix, "md" = the root declares xmlns:md=MdNs and the frame's elements are md:...;
+// prefix: the prefix of the endpoint element's tag ({P}: drawn from prefixes); root / desc / self: namespace
+// declarations added to the root, the descriptor and the element itself ({NS}: a namespace that is not MdNs).
+type c14NsForm struct {
+	frame, prefix    string
+	root, desc, self string
+	prefixes         []string
+}
+
+var c14NsForms = map[string]c14NsForm{
+	"mdPrefix":       {frame: "md", prefix: "md"},
+	"selfPrefix":     {frame: "md", prefix: "{P}", self: ` xmlns:{P}="` + c14MdNs + `"`, prefixes: []string{"q", "saml2md", "ns0", "m", "MD"}},
+	"ancestorPrefix": {frame: "md", prefix: "{P}", desc: ` xmlns:{P}="` + c14MdNs + `"`, prefixes: []string{"q", "saml2md", "ns0", "m", "MD"}},
+	"selfDefault":    {frame: "md", prefix: "", self: ` xmlns="` + c14MdNs + `"`},
+	"foreignPrefix":  {frame: "md", prefix: "{P}", root: ` xmlns:{P}="{NS}"`, prefixes: []string{"x", "ext", "idpdisc", "init", "mdx", "MD"}},
+	"foreignSelf":    {frame: "", prefix: "{P}", self: ` xmlns:{P}="{NS}"`, prefixes: []string{"x", "ext", "idpdisc", "md", "saml"}},
+	"foreignDefault": {frame: "md", prefix: "", self: ` xmlns="{NS}"`},
+	"noNs":           {frame: "", prefix: "", self: ` xmlns=""`},
+	"noNsFrame":      {frame: "md", prefix: ""},
+	"undeclared":     {frame: "", prefix: "{P}", prefixes: []string{"zz", "md", "x", "saml2md"}},
+}
+
+// namespaces that are not the metadata namespace (character for character), look-alikes included
+var c14ForeignNs = []string{
+	"urn:example:ext", "urn:other", "urn:oasis:names:tc:SAML:profiles:SSO:idp-discovery-protocol",
+	"urn:oasis:names:tc:SAML:profiles:SSO:request-init", "urn:oasis:names:tc:SAML:metadata:ui",
+	"urn:oasis:names:tc:SAML:2.0:assertion", "urn:oasis:names:tc:SAML:2.0:protocol",
+	"urn:oasis:names:tc:SAML:2.0:metadata ", "urn:oasis:names:tc:SAML:2.0:metadata:", "urn:oasis:names:tc:SAML:2.0:metadat",
+	"URN:OASIS:NAMES:TC:SAML:2.0:METADATA", "urn:oasis:names:tc:SAML:1.0:metadata", "http://www.w3.org/2000/09/xmldsig#",
+}
+
+// c14BuildMetaNs: the document of a case whose endpoint element is written in another lexical form than the
+// base documents (which declare the metadata namespace as the default namespace on the root).
+func c14BuildMetaNs(v *c14Vec, rng *rand.Rand, n int64) c14MetaDoc {
+	d := c14MetaDoc{Entity: fmt.Sprintf("https://peer%d.example.com/metadata", n)}
+	c14PickValue(v, rng, &d)
+	f, ok := c14NsForms[v.Ns]
+	if !ok {
+		return d // Doc stays empty: the caller breaks the check
+	}
+	p, ns := "", c14ForeignNs[rng.Intn(len(c14ForeignNs))]
+	if len(f.prefixes) > 0 {
+		p = f.prefixes[rng.Intn(len(f.prefixes))]
+	}
+	fill := strings.NewReplacer("{P}", p, "{NS}", c14XMLAttr(ns))
+	fp := "" // the frame's prefix
+	rootDecl := ` xmlns="` + c14MdNs + `"`
+	if f.frame == "md" {
+		fp, rootDecl = "md:", ` xmlns:md="`+c14MdNs+`"`
+	}
+	tag := v.Elem
+	if p := fill.Replace(f.prefix); p != "" {
+		tag = p + ":" + v.Elem
+	}
+	lit := c14XMLAttr(d.Raw)
+	var el strings.Builder
+	el.WriteString("<" + tag + fill.Replace(f.self))
+	if d.Binding != "\x00" {
+		el.WriteString(` Binding="` + c14XMLAttr(d.Binding) + `"`)
+	}
+	if v.Attr == "Location" {
+		el.WriteString(` Location="` + lit + `"`)
+		if rng.Intn(2) == 0 {
+			el.WriteString(` ResponseLocation="` + c14BenignLocs[1] + `"`)
+		}
+	} else {
+		el.WriteString(` Location="` + c14BenignLocs[0] + `" ResponseLocation="` + lit + `"`)
+	}
+	if v.Kind == "IE" {
+		el.WriteString(` index="0"`)
+	}
+	el.WriteString("/>")
+	var b strings.Builder
+	b.WriteString(`<` + fp + `EntityDescriptor` + rootDecl + fill.Replace(f.root) + ` entityID="` + d.Entity + `">`)
+	if v.Desc != "IDPSSODescriptor" {
+		b.WriteString(`<` + fp + `IDPSSODescriptor` + c14Proto + `><` + fp + `SingleSignOnService Binding="` + saml.HTTPRedirectBinding + `" Location="` + c14BenignLocs[2] + `"/></` + fp + `IDPSSODescriptor>`)
+	}
+	b.WriteString("<" + fp + v.Desc + fill.Replace(f.desc) + c14Proto + ">")
+	sib := c14ElementsOf[v.Desc]
+	d.SameName = 1
+	benignSib := func() {
+		e := sib[rng.Intn(len(sib))]
+		if e == v.Elem {
+			d.SameName++
+		}
+		b.WriteString(`<` + fp + e + ` Binding="` + saml.HTTPPostBinding + `" Location="` + c14BenignLocs[rng.Intn(3)] + `" index="7"/>`)
+	}
+	// the hostile element comes first more often than not: the destination getters return the first match
+	if rng.Intn(3) == 0 {
+		benignSib()
+	}
+	b.WriteString(el.String())
+	if rng.Intn(2) == 0 {
+		benignSib()
+	}
+	b.WriteString("</" + fp + v.Desc + ">")
+	b.WriteString(`</` + fp + `EntityDescriptor>`)
+	d.Doc = b.String()
+	d.Wrapped = `<EntitiesDescriptor xmlns="` + c14MdNs + `" Name="x">` + d.Doc + `</EntitiesDescriptor>`
+	return d
+}
+
+func c14BuildMeta(v *c14Vec, rng *rand.Rand, n int64) c14MetaDoc {
+	if !c14DefaultNs(v) {
+		return c14BuildMetaNs(v, rng, n)
+	}
+	d := c14MetaDoc{Entity: fmt.Sprintf("https://peer%d.example.com/metadata", n)}
+	c14PickValue(v, rng, &d)
 	lit := c14XMLAttr(d.Raw) // control characters other than tab/LF/CR stay raw: the document is then ill-formed
 	var el strings.Builder
 	el.WriteString("<" + v.Elem)
@@ -883,9 +1005,15 @@ func c14XMLLocations(doc string) ([]c14LocVal, error) {
 	return out, nil
 }
 
-func c14ObserveMeta(shared *c14Server, v *c14Vec, d c14MetaDoc) []c14MetaObs {
+// all: every way in; otherwise the cases of the other lexical forms (vector field ns) take the plain ways only
+// (xml.Unmarshal, samlsp.ParseMetadata, sp-sinks).
+func c14ObserveMeta(shared *c14Server, v *c14Vec, d c14MetaDoc, all bool) []c14MetaObs {
 	var obs []c14MetaObs
+	all = all || c14DefaultNs(v)
 	run := func(path string, f func() ([]c14LocVal, error)) {
+		if !all && path != "unmarshal" && path != "parsemetadata" && path != "sp-sinks" {
+			return
+		}
 		o := c14MetaObs{Path: path}
 		p, msg := safely(func() {
 			vals, err := f()
@@ -1070,7 +1198,22 @@ func c14MetaKey(v *c14Vec) string {
 	if v.Shape != "" && v.Shape != "plain" {
 		k += ":shape=" + v.Shape
 	}
+	if !c14DefaultNs(v) {
+		k += ":ns=" + v.Ns
+	}
 	return k
+}
+
+// c14Reached: how many entries the parsed document has in the slice of the case's element (counted by their
+// Location field in the reflection walk).
+func c14Reached(v *c14Vec, o c14MetaObs) int {
+	n := 0
+	for _, lv := range o.Vals {
+		if strings.HasSuffix(lv.Path, ".Location") && strings.Contains(lv.Path, "."+v.Desc+"s[") && strings.Contains(lv.Path, "."+v.Elem+"s[") {
+			n++
+		}
+	}
+	return n
 }
 
 // c14JudgeMeta evaluates the statement's metadata clause on one parse path.
@@ -1221,6 +1364,7 @@ func TestC14(t *testing.T) {
 	var metaN int64
 	var mu sync.Mutex
 	pathCount := map[string]int{}
+	nsCount := map[string]int{} // cases of the other lexical forms, by form / class (from the vectors, not from what was observed)
 	parallel(len(vecs), func(i int) {
 		v := vecs[i]
 		if v.Part == "form" {
@@ -1255,13 +1399,22 @@ func TestC14(t *testing.T) {
 		}
 		k := c14MetaKey(v)
 		n := reps
-		if v.Shape != "" && v.Shape != "plain" {
-			n = reps - 1 // the shape dimension: one representative per case and run in the quick tier, two in the thorough one (the seed picks which)
+		if (v.Shape != "" && v.Shape != "plain") || !c14DefaultNs(v) {
+			n = reps - 1 // the shape and lexical-form dimensions: one representative per case and run in the quick tier, two in the thorough one (the seed picks which)
+		}
+		if !c14DefaultNs(v) {
+			mu.Lock()
+			nsCount[v.Ns+"/"+v.Class]++
+			mu.Unlock()
 		}
 		for r := 0; r < n; r++ {
 			rng := newRand(fmt.Sprintf("%s/%d", k, r))
 			d := c14BuildMeta(v, rng, atomic.AddInt64(&metaN, 1))
-			for _, o := range c14ObserveMeta(shared, v, d) {
+			if d.Doc == "" {
+				rep.Break("no document for vector %s (lexical form %q unknown to the harness)", k, v.Ns)
+				return
+			}
+			for _, o := range c14ObserveMeta(shared, v, d, thorough()) {
 				rep.Eval(v.Class, k)
 				rep.Trace(1)
 				mu.Lock()
@@ -1273,6 +1426,17 @@ func TestC14(t *testing.T) {
 				}
 				for _, dmsg := range drift {
 					rep.DriftCase(k+":path="+o.Path, dmsg, map[string]any{"raw": d.Raw, "binding": d.Binding})
+				}
+				// the model derives which slice the element is decoded into (ResolveName, MatchField); the statement
+				// does not say which elements are endpoints, so a disagreement is drift
+				if !c14DefaultNs(v) && o.Err == "" && (o.Path == "unmarshal" || o.Path == "parsemetadata" || o.Path == "sp-sinks") {
+					want := d.SameName
+					if v.Slice != v.Elem {
+						want--
+					}
+					if got := c14Reached(v, o); got != want {
+						rep.DriftCase(k+":path="+o.Path+":reach", fmt.Sprintf("model: the element written in form %q (namespace %q) is decoded into slice %q; the parsed document has %d entries in %s.%ss for %d expected", v.Ns, v.Space, v.Slice, got, v.Desc, v.Elem, want), map[string]any{"doc": d.Doc})
+					}
 				}
 				if v.Shape == "ctlFrag" && o.Err == "" {
 					for _, lv := range o.Vals {
@@ -1301,17 +1465,56 @@ func TestC14(t *testing.T) {
 	}
 	// the registered configuration has the deviation PrefixCheckOnly off; the phase before this one runs TLC
 	// with it on (spec/HtmlForms_C14dev.cfg) and must have produced a counterexample to RejectsHostile
-	refuted := false
+	// and one with ForeignNamespaceUnchecked on (spec/HtmlForms_C14devns.cfg; only the other lexical forms are
+	// enumerated there, the base cases only in HtmlForms_C14dev.cfg: the form in the counterexample tells them apart)
+	refuted, refutedNs := false, ""
 	cex, _ := filepath.Glob(filepath.Join(workDir(), "tlc_violation_*.txt"))
+	nsRe := regexp.MustCompile(`ns \|-> "(\w+)"`)
 	for _, f := range cex {
-		if b, err := os.ReadFile(f); err == nil && strings.Contains(string(b), "Invariant RejectsHostile is violated") {
+		b, err := os.ReadFile(f)
+		if err != nil || !strings.Contains(string(b), "Invariant RejectsHostile is violated") {
+			continue
+		}
+		forms := nsRe.FindAllStringSubmatch(string(b), -1)
+		if len(forms) == 0 {
+			continue
+		}
+		switch form := forms[len(forms)-1][1]; form {
+		case "default":
 			refuted = true
+		case "foreignPrefix", "foreignSelf", "foreignDefault", "noNs", "noNsFrame", "undeclared":
+			refutedNs = form
 		}
 	}
 	if !refuted {
 		rep.Break("TLC did not refute RejectsHostile under the deviation PrefixCheckOnly (no counterexample in the work directory): the location-shape dimension of the model is vacuous")
 	} else {
 		rep.Note("model self-test: with PrefixCheckOnly on (HtmlForms_C14dev.cfg) TLC refutes RejectsHostile")
+	}
+	if refutedNs == "" {
+		rep.Break("TLC did not refute RejectsHostile under the deviation ForeignNamespaceUnchecked (no counterexample with an element outside the metadata namespace in the work directory): the lexical-form dimension of the model is vacuous")
+	} else {
+		rep.Note("model self-test: with ForeignNamespaceUnchecked on (HtmlForms_C14devns.cfg) TLC refutes RejectsHostile (element written in form %q)", refutedNs)
+	}
+	rep.Extra["c14_lexical_form_cases"] = nsCount
+	{
+		foreignReject, mdAccept := 0, 0
+		for k, n := range nsCount {
+			form, class, _ := strings.Cut(k, "/")
+			switch form {
+			case "foreignPrefix", "foreignSelf", "foreignDefault", "noNs", "noNsFrame", "undeclared":
+				if class == "MustReject" {
+					foreignReject += n
+				}
+			default:
+				if class == "MustAccept" {
+					mdAccept += n
+				}
+			}
+		}
+		if foreignReject == 0 || mdAccept == 0 {
+			rep.Break("vacuous: the vectors hold %d MustReject cases on elements outside the metadata namespace and %d MustAccept cases on metadata elements written in another lexical form", foreignReject, mdAccept)
+		}
 	}
 	rep.Note("classification of location shapes on a standard binding: a control character in front of the fragment (CR, LF, CR LF + header text, TAB, DEL, other C0), an unbalanced IPv6 bracket, a non-numeric port, a malformed percent-escape in host / path / fragment and a blank in the host are not URLs under RFC 3986, RFC 9110 or the WHATWG URL standard: MustReject; no host (https:///x), the scheme alone, no \"//\" (https:x), a blank / raw non-ASCII / raw delimiter characters in the path, a malformed escape in the query, a U-label host and a control character behind the '#' only are admitted by the generic syntax only or by net/url's leniency: DontCare (the survivor oracle still applies); user name, IP literals, port, escapes, query, fragment, A-label host, a 3 kB path, no path and sub-delimiters are well-formed: MustAccept; the same shapes behind a mixed-case scheme are MustReject / DontCare")
 }
@@ -1341,7 +1544,7 @@ func init() {
 			return len(vio) > 0, fmt.Sprintf("page=%q violations=%v", o.Body, vio)
 		}
 		var all [][2]string
-		for _, o := range c14ObserveMeta(shared, &r.Vector, r.Doc) {
+		for _, o := range c14ObserveMeta(shared, &r.Vector, r.Doc, true) {
 			if o.Path != r.Observed.Path {
 				continue
 			}
